@@ -645,6 +645,156 @@ def run(chk, replay=None):
         return lines, extra, node
 
     mark('oneport-networks')
+    # ---- one-port trees whose leaves carry SYMBOLIC values named like component names (R('R1'), C('C1'), L('L1'), V('Vs'))
+    #      mixed with numeric leaves of the same type, in every order, sources included: the circuit route (`ParSer.Voc/Isc`
+    #      through the generated netlist) must name every branch apart.  thevenin() / norton() against the network's own
+    #      quantities and against each other (Voc = Isc Z), symbols substituted by rationals afterwards.
+    def symnamed_net(i):
+        X = [('R', lcapy.R), ('C', lcapy.C), ('L', lcapy.L)][i % 3]
+        nm, mk = X
+        subs_ = {nm + '1': Fraction(rng.randint(1, 9), rng.randint(1, 3)), 'Vs': Fraction(rng.randint(1, 9)), 'Is': Fraction(rng.randint(1, 9))}
+        sym, num = mk(nm + '1'), mk(R_(Fraction(rng.randint(1, 9), rng.randint(1, 3))))
+        form = (i // 3) % 6
+        vs = lcapy.V('Vs') if i % 2 == 0 else lcapy.Vstep(R_(Fraction(rng.randint(1, 9))))
+        isrc = lcapy.I('Is') if i % 2 == 0 else lcapy.Istep(R_(Fraction(rng.randint(1, 9))))
+        r0 = lcapy.R(R_(Fraction(rng.randint(1, 9), rng.randint(1, 3))))
+        if form == 0:
+            net = (vs + sym) | num
+        elif form == 1:
+            net = num | (vs + sym)
+        elif form == 2:
+            net = (vs + num) | sym
+        elif form == 3:
+            net = (vs + sym + r0) | (num + lcapy.R('R1' if nm != 'R' else 'R9'))
+        elif form == 4:
+            net = (isrc | sym | r0) + num
+        else:
+            net = sym + (isrc | num | r0)
+        if 'R9' in str(net) or (form == 3 and nm != 'R'):
+            subs_['R9'] = Fraction(rng.randint(1, 9), rng.randint(1, 3))
+            subs_.setdefault('R1', Fraction(rng.randint(1, 9), rng.randint(1, 3)))
+        return net, subs_
+
+    for k in range(6 if quick else 36):
+        sp = Fraction(rng.randint(1, 9), rng.randint(2, 5))
+        try:
+            with hard_time_limit(10 if quick else 15):
+                net, sb = symnamed_net(k)
+                desc = str(net)
+                Voc0, Z0, Isc0 = at(net.Voc.laplace(), sp, sb), at(net.Z, sp, sb), at(net.Isc.laplace(), sp, sb)
+                th, no = net.thevenin(), net.norton()
+                VocT, ZT = at(th.Voc.laplace(), sp, sb), at(th.Z, sp, sb)
+                IscN, YN = at(no.Isc.laplace(), sp, sb), at(no.Y, sp, sb)
+        except (Exception, common.TimeLimit) as e:   # noqa
+            chk.count('lcapy-error', 'oneport:symbol-named:' + type(e).__name__)
+            chk.case(('oneport-sym-err', k), False)
+            continue
+        chk.count('oneport', 'symbol-named')
+        if None in (Voc0, Z0, Isc0, VocT, ZT, IscN, YN):
+            chk.case(('oneport-sym-nr', desc), False)
+            continue
+        chk.case(('oneport-sym', desc, sp), True)
+        chk.count('oracle', 'oneport-models')
+        bad = None
+        if (VocT, ZT) != (Voc0, Z0):
+            bad = 'thevenin() model (Voc %s, Z %s) differs from the network (Voc %s, Z %s)' % (VocT, ZT, Voc0, Z0)
+        elif IscN != Isc0 or (Z0 != (0, 0) and cmul(YN, Z0) != (1, 0)):
+            bad = 'norton() model (Isc %s, Y %s) differs from the network (Isc %s, Z %s)' % (IscN, YN, Isc0, Z0)
+        elif VocT != cmul(IscN, ZT) or Voc0 != cmul(Isc0, Z0):
+            bad = 'Voc = Isc Z fails: models (Voc %s, Isc %s, Z %s), network (Voc %s, Isc %s, Z %s)' % (VocT, IscN, ZT, Voc0, Isc0, Z0)
+        if bad:
+            n_cex += 1
+            chk.counterexample({'kind': 'oneport-model', 'leaves': 'symbol-named'},
+                               {'input': {'oneport': desc, 's': fstr(sp), 'subs': {q: fstr(v) for q, v in sb.items()}}, 'lcapy': bad,
+                                'spec': 'the Thevenin / Norton model of a one-port has the Voc, Isc, Z, Y of the one-port, and Voc = Isc Z'},
+                               'one-port with symbol-named leaves: Thevenin/Norton model differs from the network')
+    mark('oneport-symbol-named')
+
+    # ---- one-port networks with AC sources at an explicitly NAMED frequency symbol, a numeric frequency, or the default
+    #      symbol omega_0, through thevenin() AND norton(): every quantity is read as the phasor of its time-domain form at
+    #      the source's own frequency (symbol substituted by a rational W; immittances at s = jW): Voc = Isc Z, Z Y = 1, the
+    #      models against the network's own Voc / Isc / Z(s), and the same voltage across a resistive load
+    from c14 import sin_coeffs
+    from lcapy import t as tt_
+
+    def ac_phasor(X, W, wsubs):
+        """phasor at angular frequency W of a voltage / current (superposition or expression), through its time-domain form"""
+        e = X.time().sympy if hasattr(X, 'time') else S.sympify(X)
+        e = e.subs({q: wsubs[q.name] for q in e.free_symbols if q.name in wsubs})
+        co = sin_coeffs(S, e, tt_.sympy, [W])
+        if co is None or co['dc'] != 0:
+            return None
+        return (co[W][0], -co[W][1])
+
+    def ac_imm(Zx, W, wsubs):
+        e = Zx.sympy if hasattr(Zx, 'sympy') else S.sympify(Zx)
+        e = e.subs({q: wsubs[q.name] for q in e.free_symbols if q.name in wsubs})
+        e = S.simplify(e.subs(ss.sympy, S.I * R_(W)))
+        if e.has(S.zoo, S.nan, S.oo):
+            return None
+        return common.gauss_rational(S.expand_complex(e))
+
+    for k in range(8 if quick else 48):
+        W = Fraction(rng.randint(1, 9), rng.randint(1, 3))
+        how = ['named', 'numeric', 'default', 'named'][k % 4]
+        wa = {'named': 'w1', 'numeric': R_(W), 'default': None}[how]
+        # the default symbol omega_0 stands for W only when the source uses it; otherwise it is given ANOTHER value, so that an
+        # immittance evaluated at the wrong frequency shows as a wrong number
+        wsubs = {'w1': R_(W), 'omega_0': R_(W) if how == 'default' else R_(W + 1)}
+        A = R_(Fraction(rng.randint(1, 9), rng.randint(1, 3)))
+
+        def val():
+            return R_(Fraction(rng.randint(1, 9), rng.randint(1, 3)))
+        try:
+            with hard_time_limit(20 if quick else 30):
+                src_v = lcapy.Vac(A, 0, wa) if wa is not None else lcapy.Vac(A)
+                src_i = lcapy.Iac(A, 0, wa) if wa is not None else lcapy.Iac(A)
+                form = (k // 4) % 4
+                if form == 0:
+                    net = src_v + lcapy.R(val()) + lcapy.L(val())
+                elif form == 1:
+                    net = src_v + lcapy.R(val()) + lcapy.C(val())
+                elif form == 2:
+                    net = src_i | lcapy.R(val()) | lcapy.C(val())
+                else:
+                    net = src_i | lcapy.R(val()) | lcapy.L(val())
+                desc = str(net)
+                th, no = net.thevenin(), net.norton()
+                q = {'Voc0': ac_phasor(net.Voc, W, wsubs), 'Isc0': ac_phasor(net.Isc, W, wsubs), 'Z0': ac_imm(net.Z, W, wsubs),
+                     'VocT': ac_phasor(th.Voc, W, wsubs), 'ZT': ac_imm(th.Z, W, wsubs),
+                     'IscN': ac_phasor(no.Isc, W, wsubs), 'YN': ac_imm(no.Y, W, wsubs)}
+                rl = R_(Fraction(rng.randint(1, 9), rng.randint(1, 3)))
+                q['vL0'] = ac_phasor((net | lcapy.R(rl)).Voc, W, wsubs)
+                q['vLT'] = ac_phasor((th | lcapy.R(rl)).Voc, W, wsubs)
+                q['vLN'] = ac_phasor((no | lcapy.R(rl)).Voc, W, wsubs)
+        except (Exception, common.TimeLimit) as e:   # noqa
+            chk.count('lcapy-error', 'oneport:ac:' + type(e).__name__ + ':' + str(e)[:30])
+            chk.case(('oneport-ac-err', k), False)
+            continue
+        chk.count('oneport', 'ac-source:' + how)
+        if any(v is None for v in q.values()):
+            chk.count('lcapy', 'oneport-ac:not-a-rational-phasor')
+            chk.case(('oneport-ac-nr', desc), False)
+            continue
+        chk.case(('oneport-ac', desc, W), True)
+        chk.count('oracle', 'oneport-ac-models')
+        bad = None
+        if q['VocT'] != q['Voc0'] or q['ZT'] != q['Z0']:
+            bad = 'thevenin() model differs from the network'
+        elif q['IscN'] != q['Isc0'] or cmul(q['YN'], q['Z0']) != (1, 0):
+            bad = 'norton() model differs from the network (Z Y = %s)' % (cmul(q['YN'], q['Z0']),)
+        elif q['VocT'] != cmul(q['IscN'], q['ZT']):
+            bad = 'Voc = Isc Z fails for the models'
+        elif not (q['vL0'] == q['vLT'] == q['vLN']):
+            bad = 'the load voltage differs between the network and its models'
+        if bad:
+            n_cex += 1
+            chk.counterexample({'kind': 'oneport-model', 'analysis': 'ac', 'frequency': how},
+                               {'input': {'oneport': desc, 'omega': fstr(W)}, 'lcapy': dict({k_: str(v) for k_, v in q.items()}, what=bad),
+                                'spec': 'at the source frequency: models = network, Voc = Isc Z, Z Y = 1, equal load voltage'},
+                               'ac one-port: ' + bad)
+    mark('oneport-ac')
+
     TQ = ('transfer', 'voltage_gain', 'transimpedance', 'transadmittance', 'current_gain')
 
     def rename_ground(lines):
@@ -868,6 +1018,86 @@ def run(chk, replay=None):
                                    '%sparams of the netlist do not describe its port behaviour' % nm)
                 break
     mark('twoport-extraction')
+
+    # ---- component-level shortcuts (mnacpts.py Cpt.thevenin / norton / oneport), multi-frequency one-ports, LoadCircuit
+    for k in range(3 if quick else 20):
+        sp = Fraction(rng.randint(1, 9), rng.randint(2, 5))
+        r1, r2 = (Fraction(rng.randint(1, 9), rng.randint(1, 3)) for _ in range(2))
+        v0 = Fraction(rng.randint(1, 9))
+        flip = k % 2 == 1
+        text = 'V1 1 0 step %s\nR1 1 2 %s\n%s' % (fs(v0), fs(r1), ('R2 0 2 %s' if flip else 'R2 2 0 %s') % fs(r2))
+        chk.case(('cpt-shortcut', text), True)
+        try:
+            with hard_time_limit(40):
+                cct = lcapy.Circuit(text)
+                for meth in ('thevenin', 'norton'):
+                    a_ = getattr(cct, meth)('R2')
+                    b_ = getattr(cct.R2, meth)()
+                    qa = at((a_.Voc if meth == 'thevenin' else a_.Isc).laplace(), sp, {})
+                    qb = at((b_.Voc if meth == 'thevenin' else b_.Isc).laplace(), sp, {})
+                    chk.count('oracle', 'cpt-shortcut:' + meth)
+                    if None not in (qa, qb) and qa != qb:
+                        n_cex += 1
+                        chk.counterexample({'kind': 'cpt-shortcut', 'method': meth},
+                                           {'input': {'netlist': text.split('\n'), 's': fstr(sp)},
+                                            'lcapy': {'cct.%s("R2")' % meth: str(qa), 'cct.R2.%s()' % meth: str(qb)},
+                                            'spec': 'the component shortcut is the model between the component\'s nodes, positive node first, like cct.%s(name)' % meth},
+                                           'cct.R2.%s() has the opposite polarity of cct.%s("R2")' % (meth, meth))
+                        break
+        except (Exception, common.TimeLimit) as e:   # noqa
+            chk.count('lcapy-error', 'cpt-shortcut:' + type(e).__name__)
+    for k in range(2 if quick else 12):
+        W1, W2 = Fraction(rng.randint(1, 4)), Fraction(rng.randint(5, 9))
+        A1, A2 = R_(Fraction(rng.randint(1, 9))), R_(Fraction(rng.randint(1, 9)))
+        rr = R_(Fraction(rng.randint(1, 9), rng.randint(1, 3)))
+        try:
+            with hard_time_limit(40):
+                net = lcapy.Vac(A1, 0, R_(W1)) + lcapy.Vac(A2, 0, R_(W2)) + (lcapy.R(rr) if k % 2 == 0 else lcapy.R(rr) + lcapy.L(2))
+                desc = str(net)
+                th = net.thevenin()
+                c0 = sin_coeffs(S, net.Voc.time().sympy, tt_.sympy, [W1, W2])
+                cT = sin_coeffs(S, th.Voc.time().sympy, tt_.sympy, [W1, W2])
+        except (Exception, common.TimeLimit) as e:   # noqa
+            chk.count('lcapy-error', 'oneport:two-frequencies:' + type(e).__name__)
+            continue
+        chk.case(('oneport-2w', desc), True)
+        chk.count('oracle', 'oneport-two-frequencies')
+        if c0 is not None and cT is not None and c0 != cT:
+            n_cex += 1
+            chk.counterexample({'kind': 'oneport-model', 'analysis': 'ac', 'frequency': 'two'},
+                               {'input': {'oneport': desc}, 'lcapy': {'network Voc': str(c0), 'thevenin() Voc': str(cT)},
+                                'spec': 'the Thevenin model keeps every frequency component of Voc'},
+                               'thevenin() of a one-port with sources at two frequencies drops a component')
+    for k in range(2 if quick else 12):
+        sp = Fraction(rng.randint(1, 9), rng.randint(2, 5))
+        va, vb = R_(Fraction(rng.randint(1, 9))), R_(Fraction(rng.randint(1, 9)))
+        ra, rb = R_(Fraction(rng.randint(1, 9), rng.randint(1, 3))), R_(Fraction(rng.randint(1, 9), rng.randint(1, 3)))
+        try:
+            with hard_time_limit(40):
+                a_ = lcapy.Vstep(va) + lcapy.R(ra) + (lcapy.L(1) if k % 2 else lcapy.R(1))
+                b_ = (lcapy.Vstep(vb) + lcapy.R(rb)) if k < 1 or k % 3 else lcapy.R(rb) + lcapy.C(2)
+                lc = a_.load(b_)
+                I_ = at(lc.I.laplace(), sp, {})
+                V_ = at(lc.V.laplace(), sp, {})
+                Va, Vb, Za, Zb = at(a_.Voc.laplace(), sp, {}), at(b_.Voc.laplace(), sp, {}), at(a_.Z, sp, {}), at(b_.Z, sp, {})
+        except (Exception, common.TimeLimit) as e:   # noqa
+            chk.count('lcapy-error', 'load-circuit:' + type(e).__name__)
+            continue
+        if None in (I_, V_, Va, Vb, Za, Zb):
+            continue
+        chk.case(('load-circuit', str(a_), str(b_), sp), True)
+        chk.count('oracle', 'load-circuit')
+        # spec (Thevenin lines of the two networks): Va - Za I = V = Vb + Zb I
+        lhs = (Va[0] - cmul(Za, I_)[0], Va[1] - cmul(Za, I_)[1])
+        rhs = (Vb[0] + cmul(Zb, I_)[0], Vb[1] + cmul(Zb, I_)[1])
+        if not (lhs == V_ == rhs):
+            n_cex += 1
+            chk.counterexample({'kind': 'load-circuit'},
+                               {'input': {'source': str(a_), 'load': str(b_), 's': fstr(sp)},
+                                'lcapy': {'I': str(I_), 'V': str(V_), 'Voc_s - Z_s I': str(lhs), 'Voc_l + Z_l I': str(rhs)},
+                                'spec': 'the load voltage and current lie on the Thevenin lines of both networks'},
+                               'LoadCircuit.I / V are not the operating point of source and load')
+    mark('shortcuts-multifreq-loadcircuit')
 
     chk.coverage['correspondence']['samples_of_disagreement'] = disagreements[:5]
     if broken and n_cex == 0:
